@@ -663,6 +663,55 @@ func runC14(r *Run) {
 			"only the first Cache-Control line of the request is looked at: `Cache-Control: max-age=0` followed by a second line `Cache-Control: no-cache` (or no-store) is served from the cache / stored")
 	})
 
+	r.rule("R15", "every stored entry has its heap slot when MaxBytes is set: the take-out paths (expiry, invalidation, refresh, eviction) call heap.remove(e.heapidx) on the test MaxBytes > 0 alone, so the store path calls heap.put on that test alone as well — no further condition between the MaxBytes gate and put (an entry stored without a slot keeps heapidx 0: its removal takes out another key's slot and subtracts that key's bytes, the cache then holds more than MaxBytes, or the index is out of range) (E5: writer and readers under the same guard)", func() {
+		_, h := cacheHandler(r)
+		puts := callsMatching(h, false, nameHasSuffix("cache.indexedHeap).put"))
+		r.need(len(puts) >= 1, "the handler stores entries in the heap")
+		isMaxBytes := func(v ssa.Value) bool {
+			return dependsOn(v, func(x ssa.Value) bool {
+				if fa, ok := x.(*ssa.FieldAddr); ok {
+					if fv := fieldOfValue(fa); fv != nil && fv.Name() == "MaxBytes" {
+						return true
+					}
+				}
+				return false
+			}) != nil
+		}
+		for i, p := range puts {
+			// walk up the dominator tree from the put to the MaxBytes gate: no other conditional on the way
+			okGate, extra := false, ""
+			fn := p.Instr.Parent()
+			_ = fn
+			for d := p.Block(); d != nil; d = d.Idom() {
+				par := d.Idom()
+				if par == nil {
+					break
+				}
+				iff, isIf := par.Instrs[len(par.Instrs)-1].(*ssa.If)
+				if !isIf {
+					continue
+				}
+				onEdge := false
+				for _, sc := range par.Succs {
+					if (sc == d || dom(sc, p.Block())) && len(sc.Preds) == 1 {
+						onEdge = true
+					}
+				}
+				if !onEdge {
+					continue // a join: the put does not depend on this branch
+				}
+				if isMaxBytes(iff.Cond) {
+					okGate = true
+					break
+				}
+				extra = r.pos(iff)
+				break
+			}
+			r.check(okGate, fmt.Sprintf("handler:heap.put#%d:on-the-MaxBytes-gate-alone", i+1), r.pos(p.Instr), "heap.put depends on MaxBytes > 0 alone",
+				"heap.put is skipped under a further condition ("+extra+") although the removals depend on MaxBytes > 0 alone: an entry stored without a heap slot (e.g. an empty body) is later removed through heapidx 0 — another key's slot is taken out and its size subtracted, the bytes held exceed MaxBytes, or the heap indexes out of range")
+		}
+	})
+
 	r.rule("R14", "the separately stored body lives as long as its entry: the lifetime handed to manager.setRaw for the `_body` record is the value handed to the manager.set that follows it (both follow the ExpirationGenerator) — a body that expires first leaves a fresh entry that is served as a hit with an empty body (E5, sibling agreement)", func() {
 		_, h := cacheHandler(r)
 		n := 0
